@@ -344,6 +344,10 @@ func runC09(c *h.Ctx) {
 				c.Skip("split.items", "keyvalue-ids-flow")
 				continue
 			}
+			if exposesOrder(&gen.Path{Root: chain}) && hasMethod(chain, "keyvalue") {
+				c.Skip("split.items", "member-order-open")
+				continue
+			}
 			checkSplit(c, &c09Case{lax: lax, chain: chain, split: split, doc: doc, useNum: useNum, tz: tz, vars: vars})
 		}
 		// variable / literal heads
